@@ -88,7 +88,17 @@ namespace igris
             if (place != &obj)
             {
                 place->~T();
-                new (place) T(obj);
+                try
+                {
+                    new (place) T(obj);
+                }
+                catch (...)
+                {
+                    // every slot of the array must hold an object: the
+                    // array destroys all of them
+                    new (place) T();
+                    throw;
+                }
             }
             ring_move_head_one(&r);
         }
@@ -97,7 +107,15 @@ namespace igris
         {
             T *place = buffer.data() + r.head;
             place->~T();
-            new (place) T(std::forward<Args>(args)...);
+            try
+            {
+                new (place) T(std::forward<Args>(args)...);
+            }
+            catch (...)
+            {
+                new (place) T();
+                throw;
+            }
             ring_move_head_one(&r);
         }
 
